@@ -3,9 +3,7 @@ EXTENDS Spectral, Json, IOUtils, SequencesExt
 \* spec -> code: per pair of lengths what the harness needs to place the expected impulse, per length the
 \* expected helper outputs
 Pairs == {[nsx |-> a, nsw |-> b, ns |-> NsOptimImpl(a + b), off |-> SameOffset(b)] : <<a, b>> \in (1..MaxN) \X (1..MaxN)}
-Lens == {[n |-> n, nsopt |-> NsOptimImpl(n), fscale |-> FScaleImpl(n),
-          expand |-> [m \in 1..n |-> <<ExpandImpl(n \div 2 + 1, n)[m][1], IF ExpandImpl(n \div 2 + 1, n)[m][2] THEN 1 ELSE 0>>]]
-         : n \in 1..MaxN}
+Lens == {[n |-> n, nsopt |-> NsOptimImpl(n), fscale |-> FScaleImpl(n)] : n \in 1..MaxN}
 Export == /\ TLCGet("distinct") >= 0
           /\ JsonSerialize(IOEnv.OUT_FILE, [pairs |-> SetToSeq(Pairs), lens |-> SetToSeq(Lens)])
 =============================================================================
